@@ -188,12 +188,17 @@ def run_case(spec_msgs, lead, chunk):
     s = Sender()
     s.transport = Tr()
     expect = []
+    arrays = []
     fd_counter = [100]
     for kind, nf in spec_msgs:
         fds = [fd_counter[0] + i for i in range(nf)]
         fd_counter[0] += 10
-        sig = 's' + 'h' * nf
-        body = ['x'] + fds
+        # descriptors travel as separate 'h' arguments or, every other time, as ONE array argument 'ah': the number of
+        # descriptors of a message is not the number of 'h' codes in its signature
+        as_array = nf >= 2 and (fd_counter[0] // 10) % 2 == 0
+        sig = 'sah' if as_array else 's' + 'h' * nf
+        body = ['x', list(fds)] if as_array else ['x'] + fds
+        arrays.append(as_array)
         if kind == 'call':
             m = message.MethodCallMessage('/o', 'M', interface='org.e.I', signature=sig, body=body, oobFDs=[])
         else:
@@ -237,7 +242,8 @@ def run_case(spec_msgs, lead, chunk):
     if len(r.got) != len(msgs):
         return 'delivered %d of %d messages' % (len(r.got), len(msgs))
     for i, (m, fds) in enumerate(zip(r.got, expect)):
-        if list(m.body[1:]) != fds:
+        got_fds = list(m.body[1]) if arrays[i] else list(m.body[1:])
+        if got_fds != fds:
             return 'message %d %r: descriptor arguments %r, expected %r (lead %d, read size %d)' % (i, spec_msgs[i], m.body[1:], fds, lead, chunk)
     if r._receivedFDs:
         return 'descriptors left in the queue after all messages: %r' % (r._receivedFDs,)
